@@ -48,7 +48,17 @@ def build_unit(name):
     defs = {}
     def subst(s):
         for _ in range(4):
-            s2 = re.sub(r'\$([A-Z][A-Z0-9_]*)', lambda m: defs.get(m.group(1), m.group(0)), s)
+            # `$NAME{old=>new}`: the bundle with one literal replacement (e.g. a slice-length clause restated for a scratch arena)
+            def _sub1(m):
+                t = defs.get(m.group(1))
+                if t is None:
+                    return m.group(0)
+                if m.group(2) is not None:
+                    if m.group(3) not in t:
+                        raise ExtractError(f'bundle ${m.group(1)}: text to replace not found: {m.group(3)}')
+                    t = t.replace(m.group(3), m.group(4))
+                return t
+            s2 = re.sub(r'\$([A-Z][A-Z0-9_]*)(\{([^{}]*?)=>([^{}]*?)\})?', _sub1, s)
             if s2 == s: break
             s = s2
         return s
